@@ -3,7 +3,7 @@
 (* Trace acceptor for property C09 (interpolatable compilation).  Record:  *)
 (*  tid, src = << glyph set per source >> (a sparse source contributes the *)
 (*  glyphs of its layer), sparse = << BOOLEAN >>, default (index),          *)
-(*  out = << name |-> [cs : << <<type...>> >>, comps : << base... >>] >>    *)
+(*  out = << name |-> [cs : << <<type...>> >>, comps : << "base|2x2" >>] >>   *)
 (*  per compiled master, events = the IFilter / IPreStart / Cu2QuI hook     *)
 (*  events that carry exact glyph sets (gss).                               *)
 (***************************************************************************)
